@@ -62,6 +62,15 @@ CHECKS = {
               "an Ok result; fuel exhaustion never observed); known finding core-simplify-xor-equivalence; no axioms"),
         technique="Coq proof over hand-written Gallina model + differential correspondence + truth-table oracle",
         design="4 C18"),
+    "C20": dict(
+        text=("Theorems: the four equalities are reflexive and symmetric; equal objects have equal hash keys (hence equal hashes "
+              "for any hash function); relation equality ignores child order; model equality holds exactly when root names agree "
+              "and the multisets of feature names, relation keys (owner, sorted members, min, max) and lower-cased constraint "
+              "texts coincide — which gives both order-independence and 'any structural difference => unequal'; an "
+              "order-permuted copy (recursively) is equal. Tie to the code: suite Q2 compares ==, hash, <, set/dict use."),
+        note="Coq kernel; extraction/driver; harness; Python's sorted() modelled as a stable insertion sort; str.lower as a parameter; no axioms",
+        technique="Coq proof over hand-written Gallina model + differential correspondence",
+        design="4 C20"),
 }
 
 NOT_YET = {
